@@ -729,8 +729,12 @@ class FileScanHelper:
 
         if new_tokens[-1].is_pragma:
             pragma_token = cast(PragmaToken, new_tokens[-1])
+            # Walk away from the direction of the move, so that no pragma is
+            # renumbered onto one that has yet to be moved.
             for pragma_line_number in sorted(
-                pragma_token.pragma_lines.keys(), key=abs, reverse=True
+                pragma_token.pragma_lines.keys(),
+                key=abs,
+                reverse=line_number_delta > 0,
             ):
                 if abs(pragma_line_number) > next_replacement.end_token.line_number:
                     pragma_token.adjust_pragma_line_number(
